@@ -190,4 +190,26 @@ theorem C20N_reachable_completable (xs : List NStep) (ho : (nrun true ninit xs).
 example : (nrun true ninit [.oBegin, .rBegin, .oEnd, .iWriteFinal, .iReturn, .iOpenStream, .oBegin, .w1, .w2,
     .rReadVerify, .oEnd, .w3, .rRegister, .rDone, .w3, .w4]).stream = .accepted := by decide
 
+/-- a plausible variant of the repair — the record is deleted and its channel closed by the *first*
+handler that returns instead of the last (no counting); handlers still running carry on under a
+fresh record -/
+def nstepFirstCloses (s : NSt) (x : NStep) : NSt :=
+  let s' := nstep true s x
+  if count s' < count s then { s' with cur := s'.nextRec, nextRec := s'.nextRec + 1 } else s'
+
+def nrunFirstCloses : NSt → List NStep → NSt
+  | s, [] => s
+  | s, x :: xs => nrunFirstCloses (nstepFirstCloses s x) xs
+
+/-- **the count is necessary**: without it a second handler of the same peer that returns while
+the own handshake is still being verified releases the waiter too early, and the stream opened
+after a successful Connect is refused (kernel-evaluated 10-step schedule) -/
+theorem C20N_count_is_necessary :
+    (nrunFirstCloses ninit [.rBegin, .oBegin, .iWriteFinal, .iReturn, .iOpenStream, .w1, .w2, .oEnd, .w3, .w4]).stream
+      = .refused := by decide
+
+/-- … while the counted record of the code keeps the waiter on the very same schedule -/
+example : (nrun true ninit [.rBegin, .oBegin, .iWriteFinal, .iReturn, .iOpenStream, .w1, .w2, .oEnd, .w3, .w4]).stream
+    = .waiting 0 := by decide
+
 end LockLevel
